@@ -19,6 +19,7 @@ CHECKS = {
             {'engine': 'protosim', 'config': 'asan32', 'variant': 'bake', 'runs': [4000, 400000]},
             {'engine': 'protosim', 'config': 'asan', 'variant': 'bakesweep', 'runs': [48, 6000]},
             {'engine': 'protosim', 'config': 'asan', 'variant': 'bakeadv', 'runs': [3000, 300000]},
+            {'engine': 'protosim', 'config': 'asan', 'variant': 'baketape', 'runs': [1500, 150000]},
         ],
         'sigs_per_leg': True,
         'rule': ('a case is one simulated session of BMQV, BSTS, BPACE or BAUTH between two party tasks that share only the simulated channel, followed by a '
@@ -30,6 +31,8 @@ CHECKS = {
                  'fault kinds x messages, who accepted) tuples; every session is non-trivial (two parties exchange >= 2 messages). '
                  'Leg bakeadv: one side of BPACE is an adversary task that does not know the password, offers the off-curve point (x, 0) (order 2 on the curve it defines) and derives '
                  'its key and confirmation tag from the guess u(x,0) = (x,0); the victim (step host or Run driver, either role) must fail where it requires confirmation and must never hold the predicted key. '
+                 'Leg baketape ("for every generator output"): a fault-free session is repeated once per generator draw of either party with the lowest bit of exactly that draw inverted; '
+                 'a message or a key must change (a nonce or scalar that changes nothing was overwritten or ignored). '
                  'Leg bakesweep: one run draws a configuration and then alters EVERY octet position of EVERY message in turn (one session per position): '
                  'the single-octet quantifier is enumerated completely for each configuration drawn (quick: l = 128; thorough: all three curves)'),
         'real': REAL_ALL,
